@@ -856,8 +856,14 @@ impl FseEncoder {
             return Ok(Vec::new());
         }
         
-        // Analyze frequencies if in adaptive mode or no table exists
-        if self.config.adaptive || self.table.is_none() {
+        // Analyze frequencies if in adaptive mode, if no table exists, or if the table kept
+        // from an earlier call has no slot for a symbol of this data (it could not be coded)
+        let table_covers_data = |table: &Option<FseTable>| {
+            table.as_ref().map_or(false, |t| {
+                data.iter().all(|&byte| t.enc_symbols[byte as usize].freq > 0)
+            })
+        };
+        if self.config.adaptive || !table_covers_data(&self.table) {
             self.analyze_frequencies(data)?;
         }
         
